@@ -114,7 +114,13 @@ VARIES = (
     "another curve sharing coordinates with a P-256 key, the same key asked before and after "
     "a heartbeat that found another device, UI exit exchanges ending in errors / time-outs / "
     "answers, authorizations saved twice and to other paths, PINs with the characters "
-    "between Z and a, devices asking for a mebibyte one byte at a time (2^20 exchanges)")
+    "between Z and a, devices asking for a mebibyte one byte at a time (2^20 exchanges), "
+    "logging configured at INFO / WARNING / CRITICAL, two managers on different devices in "
+    "one process, headers sharing a block hash but not a coinbase, certificate elements "
+    "re-parented inside an object, X25519 / X448 certificate keys, altered size fields of "
+    "SGX envelopes, firmware images with areas on both sides of 2^31, late answers inside "
+    "the PIN change dialogue, the same PIN / hash / path used twice in one process under "
+    "different options")
 
 IDEAS = (
     "a code path only reached through a rarely used command-line option, environment variable or "
